@@ -28,6 +28,10 @@ type Case struct {
 	Short  bool           `json:"short"`         // failing sink reports io.ErrShortWrite instead of its own error
 	Stride int            `json:"stride"`        // offsets tried: every Stride-th (1 = all)
 	Phase  int            `json:"phase"`
+	// Transient: the sink fails once and accepts every later write.
+	Transient bool `json:"transient,omitempty"`
+	// Big: one row group whose columns hold tens of kilobytes (several chunks of a pooled page buffer).
+	Big bool `json:"big,omitempty"`
 }
 
 func genCase(t *rapid.T) Case {
@@ -41,19 +45,33 @@ func genCase(t *rapid.T) Case {
 	c.Short = rapid.Bool().Draw(t, "short")
 	c.Stride = kit.Pick([]int{1, 1, 3, 7}, []int{1})[rapid.IntRange(0, kit.Pick(3, 0)).Draw(t, "stride")]
 	c.Phase = rapid.IntRange(0, 6).Draw(t, "phase")
+	c.Transient = rapid.IntRange(0, 2).Draw(t, "transient") == 0
+	if rapid.IntRange(0, 5).Draw(t, "big") == 0 {
+		c.Big = true
+		c.Plan = gen.RowsAtLeast(t, &c.Schema, 6, 500, 700, gen.ValueOpts{Style: gen.Mixed, Leaf: gen.Opts{MaxBytes: 200}})
+		c.Plan.Uniq = true
+		c.Ops, c.Opts.MaxRows, c.Opts.PageBuf = nil, 0, []int{0, 4096}[rapid.IntRange(0, 1).Draw(t, "bigpb")]
+	}
 	return c
 }
 
 type sink struct {
-	buf   bytes.Buffer
-	limit int
-	short bool
-	n     int
+	buf       bytes.Buffer
+	limit     int
+	short     bool
+	n         int
+	transient bool // fail once, then accept everything
+	failed    bool
 }
 
 var errSink = errors.New("verif: injected sink failure")
 
 func (s *sink) Write(p []byte) (int, error) {
+	if s.transient && s.failed {
+		s.buf.Write(p)
+		s.n += len(p)
+		return len(p), nil
+	}
 	room := s.limit - s.n
 	if room >= len(p) {
 		s.buf.Write(p)
@@ -65,6 +83,7 @@ func (s *sink) Write(p []byte) (int, error) {
 	}
 	s.buf.Write(p[:room])
 	s.n += room
+	s.failed = true
 	if s.short {
 		return room, io.ErrShortWrite
 	}
@@ -173,7 +192,7 @@ func runSink(c Case, o *kit.Obs) *kit.Failure {
 		}
 	}
 	for _, L := range offsets {
-		s := &sink{limit: L, short: c.Short}
+		s := &sink{limit: L, short: c.Short, transient: c.Transient}
 		err, p := writeTo(c, cols, rows, s, tmp)
 		if p != nil {
 			return kit.Failf("c14/sink/panic"+feat, "sink failing at offset %d of %d (%s): panic: %v", L, size, regionOf(pf, int64(L)), p)
@@ -196,6 +215,8 @@ func runSink(c Case, o *kit.Obs) *kit.Failure {
 		o.Class("sink-region-" + r)
 	}
 	o.ClassIf(stride == 1, "exhaustive-offsets")
+	o.ClassIf(c.Transient, "transient-failure")
+	o.ClassIf(c.Big, "big-row-group")
 	if len(regions) >= 3 || c.Enc != 0 {
 		o.NonTrivial()
 	}
@@ -207,7 +228,7 @@ var sinkSpec = &kit.Spec[Case]{
 	Name:     "sink",
 	Rule: "a small generated file (≤3 leaves, ≤120 rows, all option combinations incl. WriteBufferSize 0/64/1000/default, chunk and file-backed page buffer pools, bloom filters immediate/deferred/gzip, several row groups, optionally encrypted with an encrypted or signed plaintext footer) " +
 		"is first written fault-free (size S); then the same Write/Flush/Close history is replayed against a sink that accepts exactly L bytes and then returns (k<len(p), err) with err either its own error or io.ErrShortWrite, " +
-		"for every L < S (or every 3rd/7th in some quick cases; metrics.sink_offsets_tried counts them): some call must return non-nil and nothing may panic; with room for S bytes the result must be nil and byte-identical. " +
+		"(in a third of the cases the sink fails only once and accepts every later write; in a sixth the file is one row group of 500-700 rows with values up to 200 bytes, so page buffers span several pooled chunks) for every L < S (or every k-th for large files; metrics.sink_offsets_tried counts them): some call must return non-nil and nothing may panic; with room for S bytes the result must be nil and byte-identical. " +
 		"Non-trivial = the tried offsets fall in at least 3 of the regions magic / pages / bloom-or-index / footer.",
 	Assumptions: []string{"only contract-respecting sinks (a short count always comes with a non-nil error)"},
 	Gen:         genCase,
